@@ -171,6 +171,39 @@ def ref_strip_empty(n):
     return n
 
 
+def clone_tree(node):
+    "new node and list objects all the way down; non-field attributes (executor, dataset object, query metadata) by reference"
+    if isinstance(node, ast.AST):
+        new = type(node)()
+        for k, v in vars(node).items():
+            setattr(new, k, clone_tree(v) if k in node._fields else v)
+        return new
+    if isinstance(node, list):
+        return [clone_tree(x) for x in node]
+    return node
+
+
+def scramble_in_place(tree):
+    "what a careless backend does to ITS argument: every node and every list object reachable from it is edited in place"
+    for n in list(ast.walk(tree)):
+        if isinstance(n, ast.Name):
+            n.id = n.id + "_rewritten"
+        elif isinstance(n, ast.Attribute):
+            n.attr = n.attr + "_rewritten"
+        elif isinstance(n, ast.Constant):
+            n.value = ("rewritten", n.value)
+        elif isinstance(n, ast.Lambda):
+            n.args.args.clear()
+        elif isinstance(n, ast.Dict):
+            n.keys.clear()
+            n.values.clear()
+    for n in list(ast.walk(tree)):
+        if isinstance(n, ast.Call):
+            n.args.reverse()
+            n.args.append(ast.Constant(value="appended"))
+            n.keywords.clear()
+
+
 class Runner:
     """Runs one history on the real library, checks the oracles after every step and collects the
     observation the Lean model must reproduce."""
@@ -181,6 +214,9 @@ class Runner:
         from func_adl.ast.ast_hash import calc_ast_hash
 
         self.ctx, self.ops, self.focus = ctx, ops, focus
+        import random as _random
+
+        self.scramble_rng = _random.Random(repr(ops))  # a function of the history, so that a replay does the same
         self.lookup = lookup_query_metadata
         self.hash = calc_ast_hash
         runner = self
@@ -212,6 +248,14 @@ class Runner:
 
     # executors -----------------------------------------------------------------------------------
     async def executor_body(self, exe_id, a, title):
+        # A backend may rewrite the tree it is handed in place (the library's own extract_metadata does).  What the
+        # executor RECEIVED is kept as a structural copy (annotations by reference); the received object itself is then
+        # scrambled on about half of the executions: no stream's query may change because of it (C11).
+        kept = clone_tree(a)
+        if self.scramble_rng.random() < 0.5:
+            scramble_in_place(a)
+            self.ctx.dist["executor rewrote the received tree in place"] += 1
+        a = kept
         self.calls.append((exe_id, a, title))
         n = len(self.calls) - 1
         mode = self.modes[n] if n < len(self.modes) else ("ok", None)
